@@ -836,11 +836,13 @@ def nonces_aliased(f):
         return True, found
     if any('r' in g and 's' in g for g in groups):
         # the two final masking scalars can be opened from the responses of a 1-bit proof (no folding rounds): r1 = r + a*e, s1 = s + b*e
-        for rng in ('zero', 'const'):
-            o = run_replay({'scenario': 'batch', 'n': 1, 'x': x, 'members': [{'m': 1, 'cap': 1, 'rng': rng, 'seeded': True}], 'attacks': True}, 1)
-            om = (o.get('opened_final_masks') or [None])[0] if 'crash' not in o else None
-            if om and om[0] == om[1]:
-                return True, [{'external_rng': rng, 'the two final masking scalars opened from a 1-bit proof are equal': om}]
+        # ... and from a SEEDED proof of any size by the witness holder (A, L, R are then the documented seed nonces' and the folded witness is known)
+        for nn in (1, n, 4, 64):
+            for rng in ('zero', 'const', 'sym'):
+                o = run_replay({'scenario': 'batch', 'n': nn, 'x': x, 'members': [{'m': 1, 'cap': 1, 'rng': rng, 'seeded': True}], 'attacks': True}, 1)
+                om = (o.get('opened_final_masks') or [None])[0] if 'crash' not in o else None
+                if om and om[0] == om[1]:
+                    return True, [{'external_rng': rng, 'bit length': nn, 'the two final masking scalars opened from a seeded proof by its witness holder are equal': om}]
     return nonces_repeat(f)
 
 
